@@ -96,7 +96,7 @@ impl<V: Value> PartialEq for Memory<V> {
                         }
                     })
                 })
-                .unwrap_or(false)
+                .unwrap_or(self.backing.is_none() && other.backing.is_none())
         } else {
             false
         }
